@@ -143,13 +143,19 @@ HARNESSES = [
                "verdicts, logical block numbers and extent payload symbolic"),
     dict(name="sbwrite_t", src="sbwrite_t.c",
          funcs=["write_backup_super", "ext2fs_superblock_csum_set"],
-         configs=[{"MODE": 1, "CSUM": 1}, {"MODE": 1, "CSUM": 0}, {"MODE": 2, "CSUM": 1}, {"MODE": 2, "CSUM": 0}],
+         configs=[{"MODE": 1, "CSUM": 1}, {"MODE": 1, "CSUM": 0}, {"MODE": 2, "CSUM": 1}, {"MODE": 2, "CSUM": 0},
+                  {"MODE": 3},
+                  {"MODE": 3, "LO_O": 1, "LO_A": 1, "LO_B": 2, "UP_O": 3, "UP_A": 3, "UP_B": 3},
+                  {"MODE": 3, "LO_O": 1, "LO_A": 2, "LO_B": 3, "UP_O": 1, "UP_A": 1, "UP_B": 2, "_tier": "thorough"}],
          unwind=4, unwindset=["main.%d:1030" % i for i in range(6)] +
-                   ["ext2fs_crc32c_le.0:1030", "io_channel_write_blk64.0:1030"],
+                   ["ext2fs_crc32c_le.0:1030", "io_channel_write_blk64.0:1030", "io_channel_write_byte.0:1030",
+                    "vf_dev_equals.0:1030", "write_primary_superblock.0:516", "write_primary_superblock.1:516", "write_primary_superblock.2:516", "write_primary_superblock.3:516"],
          backends=["kissat", "default"],
          bound="one 1024-byte superblock copy per query, all bytes symbolic except the feature words; group (2^32) and "
                "block number (2^64) symbolic; backup path (write_backup_super) and primary path (tail of ext2fs_flush2 "
-               "+ write_primary_superblock fallback), metadata_csum on/off"),
+               "+ write_primary_superblock fallback), metadata_csum on/off; incremental route (orig_super + write_byte): two "
+               "consecutive updates A, B over a byte-array device, s_checksum of all three images symbolic, one lower-half "
+               "and one upper-half word concrete per query"),
     dict(name="iscan_p", src="iscan_p.c", extra_src=["lib/ext2fs/blknum.c", "lib/ext2fs/extent.c"],
          funcs=["ext2fs_get_next_inode_full", "get_next_blockgroup", "get_next_blocks", "check_inode_block_sanity"],
          # check_inode_block_sanity's loop (a `continue` inside a while) is not bounded concretely by symex: its bound
